@@ -13,7 +13,7 @@ VARIABLES prio, ncp
 pvars == <<svars, prio, ncp>>
 
 Actors == 0..W
-Act(a) == IF a = 0 THEN SMaster ELSE SWorker(a)
+Act(a) == (IF a = 0 THEN SMaster ELSE SWorker(a)) \/ SEnter(a)
 Perms == {f \in [Actors -> 1..(W + 1)] : \A a, b \in Actors : a # b => f[a] # f[b]}
 En == {a \in Actors : ENABLED Act(a)}
 Top == CHOOSE a \in En : \A b \in En : prio[b] <= prio[a]
